@@ -238,6 +238,63 @@ def cli_part(V, wd, rng, tier):
         V.traces += len(evs)
 
 
+def valgrind_part(V, wd, rng, tier):
+    vdir = os.path.join(wd, "valgrind")
+    os.makedirs(vdir, exist_ok=True)
+    kv.build("rel")
+    S = []
+
+    def fa(name, recs):
+        p = os.path.join(vdir, name + ".fa")
+        open(p, "w").write(kv.fasta(recs))
+        return p
+
+    def arr(name, seqs):
+        p = os.path.join(vdir, name + ".arr")
+        open(p, "w").write("".join(",".join(str(ord(c)) for c in s) + "\n" for s in seqs))
+        return p
+    long3 = gen.family(rng, 3, 510 if tier == "quick" else 620, gen.DNA, sub=0.1, indel=0.01)
+    S.append(("hirsch500", ["read 0 %s" % fa("h500", [("s%d" % i, s) for i, s in enumerate(long3)]), "run 0 2 5 -1 -1 -1", "write 0 msf %s" % os.path.join(vdir, "h.msf"), "free 0"]))
+    eq = gen.family(rng, 6, 24, gen.DNA, sub=0.2, indel=0.0)
+    S.append(("array_equal_lengths", ["kalign %s 2 5 -1 -1 -1 x" % arr("eq", eq), "kalign %s 1 0 5 2 1 y" % arr("eq2", eq[::-1])]))
+    odd = ["ACGTXACGTJACGT", "ACGTOACGTZACG", "ACGUBACGTXXCGT"]
+    S.append(("letters_outside_alphabet", ["read 0 %s" % fa("odd", [("o%d" % i, s) for i, s in enumerate(odd)]), "run 0 1 5 -1 -1 -1", "write 0 clu %s" % os.path.join(vdir, "o.clu"), "free 0"]))
+    if tier != "quick":
+        prot = [s + "LKEF" for s in gen.family(rng, 104, 30, gen.AA, sub=0.2, indel=0.03)]
+        S.append(("kmeans104", ["read 0 %s" % fa("km", [("p%d" % i, s) for i, s in enumerate(prot)]), "run 0 4 5 -1 -1 -1", "write 0 fasta %s" % os.path.join(vdir, "k.fa"), "free 0"]))
+        for j in range(12):
+            sc = gen.alignment_scenario(rng, nmax=8, lmax=80)
+            sc["seqs"] = [s for s in sc["seqs"] if s] or ["ACGT", "ACG"]
+            S.append(("gen%d" % j, ["read 0 %s" % fa("g%d" % j, list(zip(gen.names(rng, len(sc["seqs"])), sc["seqs"]))), "run 0 %d %d %g %g %g" % (sc["threads"], sc["type"], sc["gpo"], sc["gpe"], sc["tgpe"]),
+                                    "write 0 %s %s" % (["fasta", "msf", "clu"][j % 3], os.path.join(vdir, "g%d.out" % j)), "free 0"]))
+            S.append(("genarr%d" % j, ["kalign %s %d %d -1 -1 -1 z" % (arr("ga%d" % j, sc["seqs"]), sc["threads"], sc["type"])]))
+
+    def one(i):
+        name, lines = S[i]
+        sp = os.path.join(vdir, name + ".kv")
+        open(sp, "w").write("level 0\n" + "\n".join(lines) + "\n")
+        e = dict(os.environ)
+        e["OMP_NUM_THREADS"] = "2"
+        try:
+            p = subprocess.run(["valgrind", "--error-exitcode=9", "--track-origins=yes", "-q", os.path.join(kv.build("rel"), "kvdrive"), "-s", sp, "-o", os.path.join(vdir, name + ".ndjson")],
+                               stdin=subprocess.DEVNULL, stdout=subprocess.PIPE, stderr=subprocess.PIPE, timeout=900, env=e)
+            return i, p.returncode, p.stderr.decode("utf-8", "replace")
+        except subprocess.TimeoutExpired:
+            return i, 124, "timeout"
+    for i, rc, err in kv.pmap(one, range(len(S)), workers=8):
+        name = S[i][0]
+        V.case("valgrind:" + name, True)
+        if rc == 9 or "uninitialised" in err or "Invalid read" in err or "Invalid write" in err:
+            first = [x for x in err.splitlines() if "uninitialised" in x or "Invalid" in x]
+            mm = re.search(r"\((\w+\.c):(\d+)\)", "\n".join(x for x in err.splitlines() if "kvdrive.c" not in x and ".c:" in x))
+            V.violation("valgrind on scenario %s: %s" % (name, first[0].split("== ")[-1] if first else "error"), kv.save_replay("C05", "valgrind_" + name, [os.path.join(vdir, name + ".kv")]),
+                        dict(kind="uninitialised", where="%s:%s" % (mm.group(1), mm.group(2)) if mm else "", scenario=name))
+        elif rc not in (0,):
+            V.violation("valgrind scenario %s: exit %d" % (name, rc), os.path.join(vdir, name + ".kv"), dict(kind="unexplained", rc=rc))
+        else:
+            V.traces += 1
+
+
 def run(tier, seed, which="C05"):
     V = kv.Verdict("C05", tier, seed)
     wd = kv.workdir("c05")
@@ -286,6 +343,8 @@ def run(tier, seed, which="C05"):
                         dict(kind="memory", where="%s.c:%s" % (mm.group(1), mm.group(2)) if mm else "", records=extra[k]["many"]))
         else:
             V.traces += 1
+    # uninitialised-value use is invisible to ASan: a valgrind (memcheck) pass over executions that enter every region
+    valgrind_part(V, wd, rng, tier)
     # (c) the command line
     cli_part(V, wd, rng, tier)
     if tier != "quick":
